@@ -44,6 +44,8 @@ def _post(ctx):
         static_key_check=stats, inputs_by_class={k: v for k, v in c.items() if k.startswith("inputs_")},
         differences_masked_by_C14_dangling_abort=c.get("differences_masked_by_C14_dangling_abort", 0),
         lm_calls_recorded=c.get("lm_calls_recorded", 0),
+        cache_hits_audited=c.get("cache_hits_audited", 0),
+        cache_hits_differing_from_recomputation=c.get("cache_hits_differing_from_recomputation", 0),
         generated_key_theorems_closed=sum(out.count("Closed under the global context") for _, (ok, out) in res.items()),
     )
 
@@ -60,8 +62,9 @@ CFG = dict(
                "satisfying the invariant and every sequence of calls, longest_match returns the same result under all four "
                "settings of {cache, pruning}, under H_mfn (match result is a function of (loc_key, cache_key) = key injectivity + "
                "context determinism), H_probe and H_simple_sound. Key injectivity is discharged statically per dialect "
-               "(keys_injective_<d>, vm_compute over all possible options); H_simple_sound and H_ctx are not provable from the "
-               "grammar data alone and are covered by the direct on/off comparison of parse trees.",
+               "(keys_injective_<d>, vm_compute over all possible options); the cache invariant is audited at run time on every "
+               "cache hit of sampled parses; H_simple_sound and H_ctx are not provable from the grammar data alone and are "
+               "covered by the direct on/off comparison of parse trees.",
     level_note="Conditional theorem: H_ctx (the cache key omits the active terminators) is known not to hold in general and is "
                "observed only through the end-to-end comparison (13 dialects x corpus/cross-dialect/corrupted inputs x "
                "{cache off, prune off, both off, repeat, fresh dialect, 8 threads sharing a dialect}); the loop model is tied to "
@@ -69,7 +72,7 @@ CFG = dict(
     rule="inputs: every dialect fixture (<= 2.5 kB quick / 6 kB thorough) under its own dialect, under 1 (quick) / 12 (thorough) "
          "other dialects, rule-fixture snippets under a random dialect, token-level corruptions (delete/duplicate/swap/insert "
          "keyword/truncate/split), hand-written stress inputs; each parsed 6 ways and compared (direct observations); "
-         "correspondence cases = recorded longest_match calls (3 switch settings) of every 12th (quick) / 3rd (thorough) input; "
+         "correspondence cases = recorded longest_match calls (3 switch settings) of every 12th (quick) / 6th (thorough) input; "
          "non-trivial input = baseline parse produced a tree and the input has >= 4 words; non-trivial call = >= 2 options and "
          "(a cache hit, a pruned option or a terminator probe); distinct = distinct (args, expected) of calls + distinct non-trivial inputs",
     assumptions=[
